@@ -45,15 +45,21 @@ MANIFEST = dict(
          "blank lines inside/at the end, lines starting with @ ^ + - or ending in +) for every harvested block in C, Fortran, "
          "Python and Lua outputs, supplied by command-line file, YAML file (extension need not match the key), splicer_code, "
          "combinations and conflicts, declaration-level splicers in every YAML scalar form; module-level Fortran blocks and the "
-         "blocks of classes/functions must be named after their own namespace; generated files of all four languages fed back "
+         "blocks of classes/functions must be named after their own namespace; within one file a block name names one block; "
+         "a declaration-level splicer may not vanish from a language the declaration is part of (it forces the wrapper of a "
+         "function callable directly); user code for the file-level C blocks of a class with no generated code makes its "
+         "files appear; _create_splicer's return value is true for a user body or a default and false otherwise; "
+         "splicer_code lists may hold empty YAML items; generated files of all four languages fed back "
          "as splicer files reproduce the same code. "
          "Trusted / modelled, not verified: the Lean kernel; the hand model (flat representation of the nested dictionaries; "
          "Python whitespace on ASCII+U+0085/U+00A0; UTF-8, universal newlines), validated on generated inputs only; NS/wrapNs is "
          "an abstraction of Wrapf.wrap_namespace's stack operations, tied through the recorded sequences; that every wrapper "
          "emits markers only through _create_splicer is a static scan. Open findings: TAB and FF inside user lines are consumed by "
-         "write_continue; the C blocks of generated member getters/setters ignore a user splicer -- that is the design of "
-         "`splicer:` on declarations (force has priority), generate.py uses it for generated bodies; class template "
-         "instantiations share block names (not compared in the feed-back run). A splicer named __line__ is outside the model.",
+         "write_continue (no escape exists; a repair needs a new write_lines directive); the C blocks of generated member "
+         "getters/setters ignore a user splicer -- that is the design of `splicer:` on declarations (force has priority), "
+         "generate.py uses it for generated bodies; class template instantiations share block names; in the Python wrapper an "
+         "overload with an empty function_suffix shares its block name with the dispatcher. A splicer named __line__ is "
+         "outside the model.",
     technique="Lean 4 proof (induction over lines, blocks and namespace trees) + differential correspondence model/implementation "
               "incl. main_with_args and recorded emitter sequences + end-to-end regeneration oracle on corpus and generated libraries",
 )
@@ -116,7 +122,7 @@ def flatten(nested, prefix=()):
             out.append(("D", p, None))
             out.extend(flatten(v, p))
         elif isinstance(v, (list, tuple)):
-            out.append(("L", p, list(v)))
+            out.append(("M" if any(x is None for x in v) else "L", p, list(v)))
         else:
             out.append(("L", p, ["<%s>" % type(v).__name__]))
     return out
@@ -129,6 +135,8 @@ def enc_dict(entries):
     for kind, p, body in entries:
         if kind == "L":
             toks.append("L/%s/%s" % (common.encs(list(p)), common.encs(body)))
+        elif kind == "M":       # a splicer_code list with YAML nulls
+            toks.append("M/%s/%s" % (common.encs(list(p)), "&".join("n" if x is None else "s" + common.enc(x) for x in body)))
         else:
             toks.append("D/%s" % common.encs(list(p)))
     return "|".join(toks)
@@ -349,14 +357,15 @@ def gen_malformed(r):
     return "".join(l + r.choice(TERM) for l in lines)
 
 
-def gen_nested(r, depth=0):
+def gen_nested(r, depth=0, nulls=False):
+    """nulls: as a splicer_code mapping, where an empty YAML list item is None"""
     d = {}
     for _ in range(r.randrange(0, 4 if depth == 0 else 3)):
         k = r.choice(["a", "b", "c", "function", "class", "foo", "", "x::y"])
         if r.random() < 0.45 and depth < 3:
-            d[k] = gen_nested(r, depth + 1)
+            d[k] = gen_nested(r, depth + 1, nulls)
         else:
-            d[k] = [r.choice(BODY + ["a", "b", "foo"]) for _ in range(r.randrange(0, 4))]
+            d[k] = [None if nulls and r.random() < 0.2 else r.choice(BODY + ["a", "b", "foo"]) for _ in range(r.randrange(0, 4))]
     return d
 
 
@@ -504,7 +513,7 @@ def gen_main_case(r):
     if r.random() < 0.6:
         code = {}
         for l in r.sample(["c", "f", "py", "lua"], r.randrange(1, 4)):
-            code[l] = gen_nested(r)
+            code[l] = gen_nested(r, nulls=True)
     return cmd, dirs, yaml_entries, code, r.choice(["separate", "joined"])
 
 
@@ -625,7 +634,7 @@ def tie(ctx, ok, tmp):
     for k in range(1500 if thorough else 400):
         contents = [gen_valid(r) if r.random() < 0.9 else gen_malformed(r) for _ in range(r.randrange(0, 4))]
         ncmd = r.randrange(0, len(contents) + 1)
-        code = gen_nested(r) if r.random() < 0.5 else None
+        code = gen_nested(r, nulls=True) if r.random() < 0.5 else None
         add("col %s %d %s" % ("N" if code is None else enc_dict(flatten(code)), ncmd, " ".join(common.enc(c) for c in contents)),
             real_col(tmp, code, ncmd, contents), canon_gs, "col")
     n_ws = 8000 if thorough else 2500
@@ -946,6 +955,22 @@ def nest(blocks):
     return d
 
 
+def nest_nulls(blocks, r):
+    """as nest(), blank lines sometimes written as an empty YAML item (None)"""
+    d = nest(blocks)
+
+    def walk(n):
+        for k, v in n.items():
+            if isinstance(v, dict):
+                walk(v)
+            elif r.random() < 0.5:
+                n[k] = [None if x == "" else x for x in v]
+                if any(x is None for x in n[k]):
+                    SHAPE_STATS["splicer_code:null-item"] = SHAPE_STATS.get("splicer_code:null-item", 0) + 1
+    walk(d)
+    return d
+
+
 def check_supplied(ctx, lib, how, files, base_h, supplied, replay):
     """supplied: {lang: {name: body}}.  Every occurrence of a supplied block holds the body (up to
     indentation / trailing blanks); every other block keeps the baseline default."""
@@ -1065,6 +1090,97 @@ def declared_scopes(doc):
     return ({k: v[0] for k, v in classes.items() if len(v) == 1}, {k: v[0] for k, v in funcs.items() if len(v) == 1})
 
 
+def hollow_classes(doc):
+    """[(scope, name)] of classes declared without members: Shroud has nothing of its own for their C files."""
+    out = []
+
+    def walk(decls, scope):
+        for d in decls or []:
+            if not (isinstance(d, dict) and isinstance(d.get("decl"), str)):
+                continue
+            w = d["decl"].split()
+            if w[:1] == ["namespace"]:
+                walk(d.get("declarations"), scope + [w[1]])
+            elif w[:1] == ["class"] and len(w) == 2 and not d.get("declarations"):
+                out.append((scope, w[1]))
+    walk(doc.get("declarations"), [])
+    return out
+
+
+def check_hollow(ctx, lib, libname, base_doc, base_h, r, rp):
+    """User code for the file-level C blocks of a class whose files hold nothing else: the files are written for it."""
+    kinds = [k for k in ("CXX_declarations", "C_declarations", "CXX_definitions", "C_definitions")
+             if any(re.match(r"^(namespace\.[^.]+\.)?class\.\w+\.%s$" % k, n) for n in base_h.get("c", {}))]
+    hollow = hollow_classes(base_doc)
+    if not kinds or not hollow:
+        return
+    sup = {}
+    for scope, cname in hollow:
+        for k in kinds:
+            name = ("namespace.%s." % "::".join(scope) if scope else "") + "class.%s.%s" % (cname, k)
+            if name not in base_h.get("c", {}):
+                sup[name] = gen_clean_body(r, "hollow%d" % len(sup), "hollow-class")
+    if not sup:
+        return
+    route = r.choice(["cmdline-file", "splicer_code"])
+    doc = copy.deepcopy(base_doc)
+    cmd = []
+    if route == "cmdline-file":
+        cmd = [lib.write_splicer_file("%s-hollow-%d" % (libname, lib.n), "c", sorted(sup.items()), r)]
+    else:
+        doc["splicer_code"] = {"c": nest(sorted(sup.items()))}
+    rc, out, files, _ = lib.run(doc, cmd_files=cmd)
+    if rc != 0:
+        ctx.fail("e2e:%s:hollow-class:run-failed" % libname, "regeneration failed: " + out[-400:], rp)
+        return
+    h = harvest(files).get("c", {})
+    for name, body in sorted(sup.items()):
+        ctx.count(1)
+        occ = h.get(name, [])
+        if not any([norm(x) for x in b] == [norm(x) for x in body] for (_f, _k, b) in occ):
+            ctx.fail("e2e:%s:hollow-class:user-body-vanished" % libname,
+                     "user code for block %s (supplied by %s) of a class with no generated C code appears nowhere in the output"
+                     % (name, route), dict(rp, block=name, body=body, route=route))
+        else:
+            ctx.nontrivial("%s:hollow:%s" % (libname, name))
+
+
+def template_classes(doc):
+    out = set()
+
+    def walk(decls):
+        for d in decls or []:
+            if isinstance(d, dict) and isinstance(d.get("decl"), str):
+                m = re.match(r"\s*template\s*<[^>]*>\s*(class|struct)\s+(\w+)", d["decl"])
+                if m or (d.get("cxx_template") and re.match(r"\s*(class|struct)\s+(\w+)", d["decl"])):
+                    out.add((m or re.match(r"\s*(class|struct)\s+(\w+)", d["decl"])).group(2))
+                walk(d.get("declarations"))
+    walk(doc.get("declarations"))
+    return out
+
+
+def check_duplicates(ctx, libname, files, rp, doc=None):
+    """Within one generated file a block name names one block (else one user body lands in two places and the file
+    cannot be read back as a splicer file)."""
+    tmpl = template_classes(doc or {})
+    for rel, text in files.items():
+        lang = lang_of(rel)
+        if lang is None:
+            continue
+        seen = set()
+        for name, _b in parse_blocks(text):
+            ctx.count(1)
+            parts = name.split(".")
+            if name in seen and "class" in parts[:-1] and parts[parts.index("class") + 1] in tmpl:
+                ctx.fail("names:template-instantiations-share-block-names:%s" % libname,
+                         "the instantiations of class template %s share their block names (%s twice in %s)"
+                         % (parts[parts.index("class") + 1], name, rel), dict(rp, file=rel, block=name))
+            elif name in seen:
+                ctx.fail("names:duplicate-block-name-in-file:%s:%s:%s" % (libname, lang, name),
+                         "the generated file %s holds two blocks named %s" % (rel, name), dict(rp, file=rel, block=name))
+            seen.add(name)
+
+
 def check_block_scopes(ctx, libname, files, doc, rp):
     """A Fortran block of a class or function declared in namespace S is named namespace.<S>... (none at library
     level), also when S is flattened into an enclosing module; never after a sibling or a place holder."""
@@ -1118,6 +1234,8 @@ def gen_ns_lib(r, name):
         out = [libgen.gen_function(r, "c++", uniq("fn"), nargs=r.randrange(0, 3)) for _ in range(r.randrange(0, 3))]
         if r.random() < 0.45:
             out.append(libgen.gen_class(r, uniq("Cls")))
+        if r.random() < 0.3:
+            out.append({"decl": "class %s" % uniq("Hollow")})       # nothing generated for its C files
         return out
 
     def ns(depth, maxdepth):
@@ -1184,6 +1302,8 @@ def oracle_e2e(ctx, libname, tmp, doc=None):
     rp = {"library": libname, "seed": common.seed()}
     check_module_scope(ctx, libname, base_files, base_doc, rp)
     check_block_scopes(ctx, libname, base_files, base_doc, rp)
+    check_duplicates(ctx, libname, base_files, rp, base_doc)
+    check_hollow(ctx, lib, libname, base_doc, base_h, r, rp)
     # --- every harvested block at once (file-level blocks of every namespace module included), command line
     supall = bodies_for(1.1, "cmdline-file-all")
     pall = files_for(supall, "all")
@@ -1214,7 +1334,7 @@ def oracle_e2e(ctx, libname, tmp, doc=None):
     # --- way 3: splicer_code
     sup3 = bodies_for(0.5, "splicer_code")
     doc = copy.deepcopy(base_doc)
-    doc["splicer_code"] = {lang: nest(sorted(b.items())) for lang, b in sup3.items()}
+    doc["splicer_code"] = {lang: nest_nulls(sorted(b.items()), r) for lang, b in sup3.items()}
     rc, out, files3, _ = lib.run(doc)
     if rc != 0:
         ctx.fail("e2e:%s:splicer_code:run-failed" % libname, "regeneration with splicer_code failed: " + out[-400:], rp)
@@ -1236,7 +1356,7 @@ def oracle_e2e(ctx, libname, tmp, doc=None):
         ctx.fail("e2e:%s:files-combined:run-failed" % libname, "regeneration with both kinds of splicer files failed: " + out[-400:], rp)
     else:
         check_supplied(ctx, lib, "cmdline+yaml-files", files4, base_h, both, dict(rp, supplied=both))
-    doc["splicer_code"] = {lang: nest(sorted(b.items())) for lang, b in supc.items()}
+    doc["splicer_code"] = {lang: nest_nulls(sorted(b.items()), r) for lang, b in supc.items()}
     rc, out, files5, _ = lib.run(doc, cmd_files=list(pa.values()))
     if rc != 0:
         ctx.fail("e2e:%s:all-combined:run-failed" % libname, "regeneration with files and splicer_code failed: " + out[-400:], rp)
@@ -1283,7 +1403,7 @@ def oracle_e2e(ctx, libname, tmp, doc=None):
     ndecl = 8
     for k, d in enumerate(decls[:ndecl]):
         sp = {}
-        for key in ("c", "f", "py"):
+        for key in ("c", "c_buf", "c_cfi", "f", "py"):      # one key per wrapper variant of the declaration
             body = gen_clean_body(r, "decl%d%s" % (k, key), "declaration-id")
             forced["tok_decl%d%s();" % (k, key)] = body
             sp[key] = body
@@ -1305,6 +1425,36 @@ def oracle_e2e(ctx, libname, tmp, doc=None):
                                      dict(rp, name=name, file=rel))
                         else:
                             ctx.nontrivial("%s:decl:%s:%s" % (libname, rel, name))
+        # a splicer on a declaration is the body of that declaration's block in every wrapper that is produced:
+        # it may not vanish (it forces the wrapper where the function could otherwise be called directly)
+        langs_out = {lang_of(rel) for rel in files7}
+        alltext = "\n".join(files7.values())
+        base_py_names = {n.split(".")[-1] for n in base_h.get("py", {})}
+        base_text = {l: "\n".join(t for rel, t in base_files.items() if lang_of(rel) == l).lower() for l in ("c", "f")}
+
+        def wrapped_in(lang_, orig, snake):
+            # the declaration is part of that language's output at all (a wrapper, or an interface to call it directly)
+            return bool(orig) and (orig.lower() in base_text[lang_] or snake in base_text[lang_])
+
+        for k, dk in enumerate(decls[:ndecl]):
+            words = dk["decl"].replace("(", " ( ").split()
+            orig = words[words.index("(") - 1].lstrip("*&") if "(" in words else ""
+            fname = _snake(orig)
+            present = {key: ("tok_decl%d%s();" % (k, key)) in alltext for key in ("c", "c_buf", "c_cfi", "f", "py")}
+            gone = []
+            off = {k_: (dk.get("options") or {}).get(k_) is False for k_ in ("wrap_c", "wrap_fortran", "wrap_python")}
+            if "f" in langs_out and not present["f"] and wrapped_in("f", orig, fname) and not off["wrap_fortran"]:
+                gone.append(("f", "Fortran"))
+            if "c" in langs_out and not (present["c"] or present["c_buf"] or present["c_cfi"]) and wrapped_in("c", orig, fname) and not off["wrap_c"]:
+                gone.append(("c", "C"))
+            # Python wraps a subset of the declarations: only those that have a block without the splicer
+            if "py" in langs_out and not present["py"] and not off["wrap_python"] and any(n == fname or n.startswith(fname + "_") for n in base_py_names):
+                gone.append(("py", "Python"))
+            ctx.count(3)
+            for key, lname in gone:
+                ctx.fail("e2e:%s:declaration:user-body-vanished:%s" % (libname, key),
+                         "the `splicer: %s:` lines of declaration %r appear nowhere in the %s output"
+                         % (key, dk["decl"], lname), dict(rp, decl=dk["decl"], key=key))
         # every occurrence of a token outside a block would be a leak
         conflict = {}
         for t, lst in found.items():
@@ -1361,12 +1511,16 @@ def oracle_e2e(ctx, libname, tmp, doc=None):
                 FORM_STATS[fk] = FORM_STATS.get(fk, 0) + 1
                 sp[key] = val
                 expect["tok_decl%d%s();" % (k, key)] = (want, form)
+            for key in ("c_buf", "c_cfi"):      # same wrappers forced as in the identification run
+                sp[key] = ["tok_keep();"]
             d["splicer"] = sp
         rc, out, filesb, _ = lib.run(docb)
         if rc != 0:
             ctx.fail("e2e:%s:declaration-forms:run-failed" % libname, "regeneration failed: " + out[-400:], rp)
         else:
             for t, places in where.items():
+                if t not in expect:
+                    continue
                 want, form = expect[t]
                 for rel, idx, name in places:
                     blocks = parse_blocks(filesb.get(rel, ""))
@@ -1445,8 +1599,10 @@ def oracle_carriage(ctx, tmp):
         d = {}
         splicer.get_splicers(fname, d)
         ind = r.randrange(0, 3)
+        nodefault = r.random() < 0.5
         resp = real_ws(True, "//", d, r.choice([20, 72]), ind, "    ", "&",
-                       [("push", "function"), ("cr", "foo", ["default();"], None), ("pop",), ("cr", "bar", ["default();"], None)])
+                       [("push", "function"), ("cr", "foo", None if nodefault else ["default();"], None),
+                        ("cr", "nouser", None, None), ("pop",), ("cr", "bar", ["default();"], None)])
         ctx.count(1)
         if not resp.startswith("ok "):
             ctx.fail("carriage:%s:crash" % kind, "emission raised: " + resp, {"body": body})
@@ -1454,7 +1610,12 @@ def oracle_carriage(ctx, tmp):
         t = resp.split(" ")
         lines = common.decs(t[5])
         got = parse_blocks("\n".join(lines))
-        want = [("function.foo", [norm(x) for x in body]), ("bar", ["default();"])]
+        want = [("function.foo", [norm(x) for x in body]), ("function.nouser", []), ("bar", ["default();"])]
+        # the return value tells the caller whether the block holds code (wrapc writes a class file only then):
+        # true for a user body (also an empty one) and for a default, false when there is neither
+        if t[1] != "f101":
+            ctx.fail("carriage:added-flag", "_create_splicer returned %s for (user block, no user and no default, default); "
+                     "expected True False True" % t[1][1:], {"body": body, "default_given": not nodefault})
         if [(n, [norm(x) for x in b]) for n, b in got] != want or int(t[4]) != ind:
             ctx.fail("carriage:%s" % kind, "user body %r comes out as %r, indentation depth %d -> %s"
                      % (body, got, ind, t[4]), {"body": body})
@@ -1554,7 +1715,10 @@ def run(ctx):
         ngen = 12 if thorough else 1
         for k in range(ngen):
             g = libgen.gen_lib(rg, name="genlib%d" % k, wrap={"wrap_python": True, "wrap_lua": rg.random() < 0.5})
-            oracle_e2e(ctx, "genlib%d" % k, tmp, g.todict())
+            gd = g.todict()
+            if gd["language"] != "c":
+                gd["declarations"].append({"decl": "class HollowG%d" % k})
+            oracle_e2e(ctx, "genlib%d" % k, tmp, gd)
         nns = 10 if thorough else 2
         for k in range(nns):
             oracle_e2e(ctx, "nslib%d" % k, tmp, gen_ns_lib(rg, "nslib%d" % k))
@@ -1586,6 +1750,8 @@ def replay(path):
         for k in range(12):
             g = libgen.gen_lib(rg, name="genlib%d" % k, wrap={"wrap_python": True, "wrap_lua": rg.random() < 0.5})
             gens["genlib%d" % k] = g.todict()
+            if gens["genlib%d" % k]["language"] != "c":
+                gens["genlib%d" % k]["declarations"].append({"decl": "class HollowG%d" % k})
         for k in range(10):
             gens["nslib%d" % k] = gen_ns_lib(rg, "nslib%d" % k)
         for name in libs:
